@@ -237,11 +237,28 @@ impl Monitor for C07 {
             ("hostile", tier.pick(4000000, 500000000)),
             ("sweep", tier.pick(50000, 5000000)),
             ("iplevel", tier.pick(1500000, 150000000)),
+            ("corpus", tier.pick(400_000, 8_000_000)),
         ]
     }
 
-    fn run_case(&mut self, engine: &str, _idx: u64, rng: &mut Prng, rep: &mut Report) {
+    fn run_case(&mut self, engine: &str, idx: u64, rng: &mut Prng, rep: &mut Report) {
         match engine {
+            "corpus" => match gen::corpus::case(idx, rng) {
+                Some(mut case) => {
+                    // trailing bytes make wrong offsets visible
+                    if rng.bool() {
+                        let n = rng.range(1, 9) as usize;
+                        let extra = rng.bytes(n);
+                        case.bytes.extend_from_slice(&extra);
+                    }
+                    rep.count("corpus_cases");
+                    self.whole(rep, &case);
+                    if case.start == crate::refmodel::pkt::Start::Ip {
+                        self.ip_level(rep, &case.bytes);
+                    }
+                }
+                None => rep.selfcheck_fail("corpus file missing".into()),
+            },
             "hostile" => {
                 let mut o = GenOpts::hostile();
                 // trailing bytes make offsets derived from trimmed slices visible
